@@ -14,7 +14,7 @@ import importlib
 import sys
 from concurrent.futures import ProcessPoolExecutor
 
-from .model import Model, AnalysisError
+from .model import Model, AnalysisError, form_for
 from .report import Report, load_known
 
 
@@ -38,7 +38,7 @@ def run_mutant(prop, rel, old, new):
     pm = importlib.import_module('sa.props.%s' % prop)
     rep = Report(prop, 'quick', quiet=True)
     try:
-        pm.run(Model(overrides={rel: mutated}), rep, 'quick')
+        pm.run(Model(overrides={rel: mutated}, form=form_for(prop)), rep, 'quick')
         err = None
     except AnalysisError as e:
         err = str(e)
@@ -81,7 +81,7 @@ def selftest(prop):
         base = Model()
         rep = Report(prop, 'quick', quiet=True)
         try:
-            pm.run(Model(overrides=neutral_variants(base, files)), rep, 'quick')
+            pm.run(Model(overrides=neutral_variants(base, files), form=form_for(prop)), rep, 'quick')
             known = {k['key'] for k in load_known() if k.get('status') == 'open'}
             fired = sorted({o.rule for o in rep.violations() if o.key() not in known})
             status = 'applied'
